@@ -14,6 +14,7 @@ import (
 	"strconv"
 	"strings"
 	"sync/atomic"
+	"time"
 )
 
 // Req is a hand-built request. Path is the decoded URL path exactly as the
@@ -30,7 +31,7 @@ type Req struct {
 	// ContentLength: nil = len(Body); otherwise the declared value. NoLength omits it.
 	DeclLen  *int64
 	NoLength bool
-	RawLen   string // literal Content-Length header (non-numeric cases); r.ContentLength = -1
+	RawLen   string              // literal Content-Length header (non-numeric cases); r.ContentLength = -1
 	Writer   http.ResponseWriter // optional custom response writer
 }
 
@@ -193,14 +194,23 @@ func Serve(h http.Handler, r Req) (resp Resp) {
 		rec = NewRecorder()
 		rw = rec
 	}
-	func() {
+	done := make(chan string, 1)
+	go func() {
 		defer func() {
 			if p := recover(); p != nil {
-				resp.Panic = fmt.Sprintf("%v\n%s", p, debug.Stack())
+				done <- fmt.Sprintf("%v\n%s", p, debug.Stack())
+				return
 			}
+			done <- ""
 		}()
 		h.ServeHTTP(rw, hr)
 	}()
+	select {
+	case resp.Panic = <-done:
+	case <-time.After(Watchdog):
+		// the handler blocks or spins: net/http would never answer either
+		return Resp{Status: 0, Header: http.Header{}, Panic: "HANG: handler did not return within " + Watchdog.String()}
+	}
 	if rec != nil {
 		resp.Status = rec.Code
 		resp.Header = rec.Snap
@@ -336,8 +346,14 @@ func firstLine(s string) string {
 	return s
 }
 
+// Watchdog is the per-request deadline standing in for "never blocks" (normal latency is ~10 us).
+var Watchdog = 20 * time.Second
+
 // PanicFrame returns the top-most frame inside the repository from a panic stack.
 func PanicFrame(stack string) string {
+	if strings.HasPrefix(stack, "HANG:") {
+		return "hang"
+	}
 	lines := strings.Split(stack, "\n")
 	seenPanic := false
 	for _, l := range lines {
